@@ -15,3 +15,4 @@ func AfterBlock(handle interface{}, which string)                               
 func Spawn(obj interface{}) interface{}                                          { return nil }
 func TaskStart(handle interface{})                                               {}
 func TaskEnd(handle interface{})                                                 {}
+func AwaitLock(point string, addr interface{}, read bool)                        {}
